@@ -29,6 +29,9 @@ def gen_cases(tier, seed):
             cases.append({"kind": "diff", "cls": cls, "rs": f"C11:{seed}:{cls}:{i}"})
     for i in range(n * 6):
         cases.append({"kind": "rt", "rs": f"C11r:{seed}:{i}"})
+    for i in range(3):
+        for cls in ("kPathCover", "MinPathCover", "kLeastAbsErrors"):
+            cases.append({"kind": "covcorpus", "cls": cls, "i": i})
     return cases
 
 
@@ -93,12 +96,20 @@ def run_diff(case, viol, obs):
         drop = [rng.choice(nodes)]          # node without the attribute
     if rng.random() < 0.3 and len(nodes) >= 3:
         ign_nodes = rng.sample([v for v in nodes if v not in drop], 1)
-    feats = []
+    feats = []; node_len = None
     H_nodes, H_edges, H_ea = own_expand(base, drop)
     ign_e = [(u + "|o", v + "|i") for (u, v) in base["edges"]] + [(v + "|i", v + "|o") for v in drop + ign_nodes]
     if ign_nodes:
         kwn["elements_to_ignore"] = list(ign_nodes); feats.append("ignore")
     kwe["elements_to_ignore"] = [list(e) for e in ign_e]
+    if cls == "kMinPathErrorCycles" and not ign_nodes and rng.random() < 0.4:
+        import numpy as np
+        pct = rng.choice([10, 30, 50])
+        vals = [base["flow"][v] for v in nodes if v not in drop]
+        thr = float(np.percentile(vals, pct)) if vals else 0
+        low = [v for v in nodes if v not in drop and base["flow"][v] < thr]
+        kwn["elements_to_ignore_percentile"] = pct; feats.append("percentile")
+        kwe["elements_to_ignore"] = kwe["elements_to_ignore"] + [[v + "|i", v + "|o"] for v in low]
     if cls in W.ERR + ["MinErrorFlow"] and rng.random() < 0.3:
         sc = {v: rng.choice([0, 0.5, 0.25]) for v in rng.sample(nodes, rng.randint(1, max(1, len(nodes) // 2)))}
         kwn["error_scaling"] = [[v, f] for v, f in sc.items()]; kwe["error_scaling"] = [[[v + "|i", v + "|o"], f] for v, f in sc.items()]; feats.append("scale")
@@ -119,8 +130,15 @@ def run_diff(case, viol, obs):
                             x.append([e[1] + "|i", e[1] + "|o"])
                     ce.append(x)
             kwe[ckey] = ce; feats.append("cons")
-            if rng.random() < 0.3:
+            r_ = rng.random()
+            if r_ < 0.3:
                 kwn[ckey + "_coverage"] = 0.5; kwe[ckey + "_coverage"] = 0.5
+            elif r_ < 0.65 and not cyc:
+                # coverage measured in NODE lengths: in the expansion a node's length sits on its own edge, the connecting edges have length 0
+                covlen = rng.choice([0.4, 0.65, 0.96]); node_len = {v: rng.choice([1, 2, 10]) for v in nodes}
+                for kw_ in (kwn, kwe):
+                    kw_["subpath_constraints_coverage_length"] = covlen; kw_["length_attr"] = "len"
+                feats.append("length-coverage")
     se_ok = cls not in ("kFlowDecomp", "MinFlowDecomp") and not (cls == "MinErrorFlow" and cyc)
     if se_ok and rng.random() < 0.25 and len(nodes) >= 3:
         inner = I.inner_nodes(base) or nodes
@@ -130,8 +148,17 @@ def run_diff(case, viol, obs):
     if cls == "MinFlowDecompCycles" and "additional_starts" in kwn:
         # edge mode of MinFlowDecompCycles does not accept additional starts/ends: compare through the k-model instead
         kwn.pop("additional_starts"); kwn.pop("additional_ends"); kwe.pop("additional_starts"); kwe.pop("additional_ends"); feats.remove("starts/ends")
-    spec_n = gen.spec(base["nodes"], base["edges"]) if cover else I.spec_of(base, drop_attr=drop)
-    spec_e = gen.spec(H_nodes, H_edges, eattr=None if cover else H_ea)
+    nl_ = {v: {"len": node_len[v]} for v in nodes} if node_len else None
+    # (some node-weighted graphs also carry an attribute of the same name on their EDGES: those values must not matter)
+    edge_noise = {e: {"flow": rng.choice([1, 7, 1000])} for e in base["edges"]} if (not cover and rng.random() < 0.3) else None
+    if edge_noise:
+        feats.append("edge-attrs")
+    spec_n = gen.spec(base["nodes"], base["edges"], nattr=nl_) if cover else I.spec_of(base, drop_attr=drop, extra_nattr=nl_, extra_eattr=edge_noise)
+    H_ea2 = {e: dict(d) for e, d in H_ea.items()} if not cover else {e: {} for e in H_edges}
+    if node_len:
+        for e in H_edges:
+            H_ea2.setdefault(e, {})["len"] = node_len[e[0][:-2]] if e[0][:-2] == e[1][:-2] and e[0].endswith("|i") else 0
+    spec_e = gen.spec(H_nodes, H_edges, eattr=H_ea2 if (node_len or not cover) else None)
     M.TRACE.install(); M.ROUTES.install(); M.ROUTES.drain()
     rn = run({"cls": cls, "spec": spec_n, "kw": kwn})
     route_ev = M.ROUTES.drain()
@@ -147,6 +174,14 @@ def run_diff(case, viol, obs):
         return None, False, None
     obs["c11.pairs_compared"] += 1
     if sn != se:
+        if edge_noise and cyc and sn[0] == "solved" and se[0] == "solved":
+            # classify by mechanism: the walk models' per-edge multiplicity caps (largest reachable weight) are computed from raw attribute
+            # values, here also from the values carried by the (ignored) original edges of the node-weighted graph
+            def caps_of(res, a, b):
+                c = getattr(res.get("model"), "edge_upper_bounds", None) or {}
+                return sorted((str(k).replace(a, "~").replace(b, "^"), float(v)) for k, v in c.items() if "source_" not in str(k) and "sink_" not in str(k))
+            if caps_of(rn, ".0", ".1") != caps_of(re_, "|i", "|o"):
+                tag = "/edge-cap-uses-ignored-values"
         viol.append({"sig": f"C11/node-mode-differs-from-own-expansion/{cls}{tag}", "msg": f"node mode: {sn} ({rn.get('exc')}); edge mode on the harness expansion: {se} ({re_.get('exc')}); {desc}"})
     if rn.get("solved") and cls != "MinErrorFlow":
         G = gen.build(spec_n)
@@ -158,7 +193,7 @@ def run_diff(case, viol, obs):
         if set(Hn.nodes) != set(nodes) or set(Hn.edges) != set(base["edges"]):
             viol.append({"sig": f"C11/MinErrorFlow-node-graph-changed{tag}", "msg": desc})
     # a node lacking the attribute == the same node with a value but explicitly ignored
-    if drop and not cover:
+    if drop and not cover and "elements_to_ignore_percentile" not in kwn:      # (an explicit ignore list cannot be combined with the percentile)
         kw3 = copy.deepcopy(kwn); kw3["elements_to_ignore"] = list(kw3.get("elements_to_ignore", [])) + drop
         b3 = dict(base); b3["flow"] = dict(base["flow"]); b3["flow"][drop[0]] = 5 if wt == "int" else 5.5
         r3 = run({"cls": cls, "spec": I.spec_of(b3), "kw": kw3})
@@ -250,9 +285,44 @@ def run_rt(case, viol, obs):
     return hashlib.sha1(desc.encode()).hexdigest()[:14], True, {"nodes": list(G.nodes)[:8], "edges": list(G.edges)[:8]}
 
 
+COVLEN_CORPUS = [
+    # (nodes, edges, node lengths, constraint as edge list, coverage_length, k): the required fraction lies between the constraint's
+    # coverage counted in node lengths only and the one that would also count the connecting edges
+    (["a", "b", "c", "d", "x"], [("a", "b"), ("b", "c"), ("b", "d"), ("x", "c")], 1, [["a", "b"], ["b", "c"]], 0.65, 2),
+    (["a", "b", "c"], [("a", "b"), ("a", "c"), ("c", "b")], 10, [["a", "b"]], 0.96, 1),
+    (["a", "b", "c", "d"], [("a", "b"), ("b", "c"), ("c", "d"), ("a", "d")], 2, [["a", "b"], ["b", "c"], ["c", "d"]], 0.7, 2),
+]
+
+
+def run_covcorpus(case, viol, obs):
+    nodes, edges, ln, cons, covlen, k = COVLEN_CORPUS[case["i"]]; cls = case["cls"]
+    kwn = {"cover_type": "node", "subpath_constraints": cons, "subpath_constraints_coverage_length": covlen, "length_attr": "len"}
+    ce = []
+    for i, e in enumerate(cons):
+        ce += [[e[0] + "|i", e[0] + "|o"], [e[0] + "|o", e[1] + "|i"]]
+        if i == len(cons) - 1:
+            ce.append([e[1] + "|i", e[1] + "|o"])
+    kwe = {"subpath_constraints": [ce], "subpath_constraints_coverage_length": covlen, "length_attr": "len",
+           "elements_to_ignore": [[u + "|o", v + "|i"] for u, v in edges]}
+    kwn["subpath_constraints"] = [cons]
+    if cls.startswith("k"):
+        kwn["k"] = k; kwe["k"] = k
+    Hn = [x for v in nodes for x in (v + "|i", v + "|o")]; He = [(v + "|i", v + "|o") for v in nodes] + [(u + "|o", v + "|i") for u, v in edges]
+    spec_n = gen.spec(nodes, edges, nattr={v: {"len": ln} for v in nodes})
+    spec_e = gen.spec(Hn, He, eattr={e: {"len": (ln if e[0][:-2] == e[1][:-2] else 0)} for e in He})
+    M.TRACE.install()
+    rn = run({"cls": cls, "spec": spec_n, "kw": kwn}); re_ = run({"cls": cls, "spec": spec_e, "kw": kwe})
+    sn, se = summary(cls, rn), summary(cls, re_)
+    obs["c11.pairs_compared"] += 1
+    desc = f"{cls} nodes={nodes} (length {ln} each) edges={edges} constraint={cons} coverage_length={covlen} k={k}"
+    if "time-limit" not in (sn[0], se[0]) and sn != se:
+        viol.append({"sig": f"C11/node-mode-differs-from-own-expansion/{cls}/cons+length-coverage", "msg": f"node mode: {sn} ({rn.get('exc')}); edge mode on the harness expansion: {se} ({re_.get('exc')}); {desc}"})
+    return hashlib.sha1(desc.encode()).hexdigest()[:14], True, {"desc": desc, "node_mode": str(sn), "own_expansion": str(se)}
+
+
 def run_case(case):
     viol = []; obs = collections.Counter()
-    key, nontriv, sample = (run_diff if case["kind"] == "diff" else run_rt)(case, viol, obs)
+    key, nontriv, sample = {"diff": run_diff, "rt": run_rt, "covcorpus": run_covcorpus}[case["kind"]](case, viol, obs)
     seen = set(); out = []
     for v in viol:
         if v["sig"] not in seen:
